@@ -308,4 +308,55 @@ def dedupeAllM (p : DupPolicy) : List (Str × JValue) → Option (List (Str × J
   | (k, v) :: t => (dedupeAll p v).bind fun v' => (dedupeAllM p t).map ((k, v') :: ·)
 end
 
+/-! ## XML 1.0 character data and attribute values (reader side of fn:parse-xml ∘ fn:serialize)
+
+§2.11 end-of-line handling (before anything else: `CR LF` and a lone `CR` become `LF`), §4.1/§4.6
+character and predefined entity references, §2.4 (`<` and a bare `&` are markup), §3.3.3
+attribute-value normalization (a literal TAB / LF becomes a space; a character reference does not). -/
+
+/-- §2.11 -/
+def normEolAux : Bool → Str → Str
+  | _, [] => []
+  | afterCR, c :: t =>
+    if c = 13 then 10 :: normEolAux true t                  -- CR (and CR of CR LF) -> LF
+    else if c = 10 ∧ afterCR = true then normEolAux false t  -- the LF of CR LF
+    else c :: normEolAux false t
+
+def normEol (t : Str) : Str := normEolAux false t
+
+/-- a reference after `&`: the character and the text after the closing `;` -/
+def readRef (t : Str) : Option (Nat × Str) :=
+  match t with
+  | 97 :: 109 :: 112 :: 59 :: r => some (38, r)                 -- amp;
+  | 108 :: 116 :: 59 :: r => some (60, r)                       -- lt;
+  | 103 :: 116 :: 59 :: r => some (62, r)                       -- gt;
+  | 113 :: 117 :: 111 :: 116 :: 59 :: r => some (34, r)         -- quot;
+  | 97 :: 112 :: 111 :: 115 :: 59 :: r => some (39, r)          -- apos;
+  | 35 :: r =>                                                  -- #DDD;
+    match spanDigits r with
+    | ([], _) => none
+    | (ds, 59 :: r') => some (digitsVal ds, r')
+    | _ => none
+  | _ => none
+
+/-- character data / attribute value after end-of-line normalization.  `attr`: §3.3.3.
+Fuel = number of characters that may be read. -/
+def readCharsF (attr : Bool) : Nat → Str → Option Str
+  | 0, _ => some []
+  | _ + 1, [] => some []
+  | f + 1, c :: t =>
+    if c = 38 then
+      match readRef t with
+      | some (d, r) => (readCharsF attr f r).map (d :: ·)
+      | none => none
+    else if c = 60 then none
+    else if attr ∧ c = 34 then none
+    else if attr ∧ (c = 9 ∨ c = 10) then (readCharsF attr f t).map (32 :: ·)
+    else (readCharsF attr f t).map (c :: ·)
+
+/-- what an XML parser reports for serialized character data -/
+def xmlReadText (t : Str) : Option Str := readCharsF false (normEol t).length (normEol t)
+/-- what an XML parser reports for a serialized (double-quoted) attribute value -/
+def xmlReadAttr (t : Str) : Option Str := readCharsF true (normEol t).length (normEol t)
+
 end EPV.Json
